@@ -7,6 +7,12 @@ VERIF = os.path.dirname(os.path.dirname(os.path.abspath(__file__)))
 ALL = [f"C{i:02d}" for i in range(1, 21)]
 
 CLAIMS = {
+    "C06": dict(
+        text="Machine-checked Coq proof (C06_agree): for the magic of every final CPython release (from CPython's registry) and every PyPy file of the corpus, and for EVERY byte string after the magic, the model of load_module's header parser returns the version, magic and exactly the fields the producing version's format stores (spec_fields), leaving the code object at the byte after them. Header decision per magic is a vm_compute obligation over tables regenerated from /repo; field decoding is an arithmetic proof. Model tied to load_module_from_file_object by in-Coq correspondence over every table magic x flag words x truncations.",
+        note="Trusted: Coq kernel; hand model coq/Model/Load.v + correspondence harness; translator for magics tables; Spec/Header.v validated against py_compile of the 9 installed interpreters in every invalidation mode. Magic 62135 (Dropbox) and non-final magics are outside the theorem. No axioms.",
+        technique="Coq proof (arithmetic + vm_compute over regenerated tables) + in-Coq correspondence",
+        design="7/C06",
+    ),
     "C09": dict(
         text="Machine-checked Coq proof by complete evaluation (vm_compute) over the 39 opcode tables regenerated from /repo on every run: name/number bijection, categorised opcodes defined and operand-taking (modulo CPython's own gaps), jrel/jabs disjoint, EXTENDED_ARG and shift, frozen category sets = category lists, label-finder binding; equality with the interpreter's opcode module (opmap, HAVE_ARGUMENT, EXTENDED_ARG, 7 categories) for the 9 installed CPythons.",
         note="Trusted: Coq kernel; translator tools/translate/opcodes.py (imports /repo's opcode modules and dumps their attributes; dumps opcode modules of the installed interpreters). For the 30 tables without an installed interpreter only coherence is decided. No axioms.",
